@@ -1574,12 +1574,13 @@ func (p *Parser) parseIdentifierArrowFunc(v *Var) (arrowFunc *ArrowFunc) {
 	prevAwait, prevYield := p.await, p.yield
 	p.await, p.yield = false, false
 
-	if 1 < v.Uses {
+	if n := len(p.scope.Parent.Undeclared); 1 < v.Uses || n == 0 || p.scope.Parent.Undeclared[n-1] != v {
+		// the second and third condition guard against a use counter that has wrapped around
 		v.Uses--
 		v, _ = p.scope.Declare(ArgumentDecl, parse.Copy(v.Data)) // cannot fail
 	} else {
 		// if v.Uses==1 it must be undeclared and be the last added
-		p.scope.Parent.Undeclared = p.scope.Parent.Undeclared[:len(p.scope.Parent.Undeclared)-1]
+		p.scope.Parent.Undeclared = p.scope.Parent.Undeclared[:n-1]
 		v.Decl = ArgumentDecl
 		p.scope.Declared = append(p.scope.Declared, v)
 	}
